@@ -3,7 +3,7 @@ From FV Require Import Base CacheModel CacheProofs CacheProofs2 CacheProofs3 Pro
 Open Scope N_scope.
 Check C12_entries_valid :
   forall (H : N -> bytes -> hashv) (T : tconf -> bytes -> option bytes) (h : list event) (w0 : world),
-  stamp_determines (moments H T ([], w0) h) -> tree_faithful T (confs h) ->
+  stamp_determines (moments H T ([], w0) h) -> nul_free (confs h) ->
   forall h1 h2, h = h1 ++ h2 ->
   forall t k e, In ((t, k), e) (fst (exec H T ([], w0) h1)) ->
   forall a tr, In (a, tr) (confs h) -> tree_of a tr = t ->
@@ -16,42 +16,26 @@ Check C12_entries_valid :
 Check C12_same_result :
   forall (H : N -> bytes -> hashv) (T : tconf -> bytes -> option bytes)
          (h : list event) (w0 : world) (a : N) (tr : option tconf) (R : Type) (p : prog R),
-  stamp_determines (moments H T ([], w0) h) -> tree_faithful T ((a, tr) :: confs h) -> nofail p ->
+  stamp_determines (moments H T ([], w0) h) -> nul_free ((a, tr) :: confs h) -> nofail p ->
   fst (run_cached H T a tr p (fst (exec H T ([], w0) h)) (snd (exec H T ([], w0) h)))
   = run_plain H T a tr p (snd (exec H T ([], w0) h)).
-Check C12_same_result_except_K :
+Check C12_same_result_rounded_down :
   forall (H : N -> bytes -> hashv) (T : tconf -> bytes -> option bytes)
          (h : list event) (w0 : world) (a : N) (tr : option tconf) (R : Type) (p : prog R),
   mtime_determines (moments H T ([], w0) h) ->
-  no_preepoch (moments H T ([], w0) h) ->
-  no_none_cmd ((a, tr) :: confs h) -> flags_irrelevant T ((a, tr) :: confs h) ->
+  preepoch_whole_ms (moments H T ([], w0) h) ->
+  nul_free ((a, tr) :: confs h) ->
   nofail p ->
   fst (run_cached H T a tr p (fst (exec H T ([], w0) h)) (snd (exec H T ([], w0) h)))
   = run_plain H T a tr p (snd (exec H T ([], w0) h)).
+Check C12_tree_id_injective : forall cs, nul_free cs ->
+  forall a1 t1 a2 t2, In (a1, t1) cs -> In (a2, t2) cs -> tree_of a1 t1 = tree_of a2 t2 -> a1 = a2 /\ t1 = t2.
 Check C12_get_put : forall t k m c t' k' m' dl h,
   cache_get t k m (cache_put t' k' m' dl h c) =
   if tree_eqb t t' && key_eqb k k'
-  then (if (code_ms (m_mtime m') =? code_ms (m_mtime m)) && (m_len m' =? m_len m) then Some (dl, h) else None)
+  then (if Z.eqb (code_ms (m_mtime m')) (code_ms (m_mtime m)) && (m_len m' =? m_len m) then Some (dl, h) else None)
   else cache_get t k m c.
 Check C12_checkers_sound : forall ws,
   (stamp_determines_b ws = true -> stamp_determines ws) /\
   (mtime_determines_b ws = true -> mtime_determines ws) /\
-  (preepoch_b ws = false -> no_preepoch ws).
-Check C12_KC1_witness :
-  mtime_determines (moments Hx Tid ([], empty_world) hK1) /\
-  no_none_cmd ((0, None) :: confs hK1) /\ flags_irrelevant Tid ((0, None) :: confs hK1) /\
-  nofail (probe 1 0 1) /\
-  ~ no_preepoch (moments Hx Tid ([], empty_world) hK1) /\
-  cached_answer Hx Tid hK1 0 None (probe 1 0 1) <> plain_answer Hx Tid hK1 0 None (probe 1 0 1).
-Check C12_KC2_witness :
-  mtime_determines (moments Hx Tip ([], empty_world) hK2) /\ no_preepoch (moments Hx Tip ([], empty_world) hK2) /\
-  no_none_cmd ((0, Some (sedc true)) :: confs hK2) /\
-  nofail (probe 1 0 2) /\
-  (t_cmd (sedc true) = t_cmd (sedc false) /\ Tip (sedc true) [97; 98] <> Tip (sedc false) [97; 98]) /\
-  cached_answer Hx Tip hK2 0 (Some (sedc true)) (probe 1 0 2) <> plain_answer Hx Tip hK2 0 (Some (sedc true)) (probe 1 0 2).
-Check C12_KC3_witness :
-  mtime_determines (moments Hx Thead ([], empty_world) hK3) /\ no_preepoch (moments Hx Thead ([], empty_world) hK3) /\
-  flags_irrelevant Thead ((0, Some nonec) :: confs hK3) /\
-  nofail (probe 1 0 2) /\
-  t_cmd nonec = none_str /\
-  cached_answer Hx Thead hK3 0 (Some nonec) (probe 1 0 2) <> plain_answer Hx Thead hK3 0 (Some nonec) (probe 1 0 2).
+  (preepoch_fraction_b ws = false -> preepoch_whole_ms ws).
